@@ -3,7 +3,8 @@
    [Check ... : statement] and followed by [Print Assumptions].  The hash function is a
    universally quantified parameter [H] of every theorem: nothing is assumed about BLAKE3. *)
 From Coq Require Import List NArith.
-From Echo Require Import Base.Bytes Model.Wal Proofs.WalProofs Proofs.WalProofs2.
+From Echo Require Import Base.Bytes Model.Wal Proofs.WalProofs Proofs.WalProofs2 Proofs.WalProofs4
+  Proofs.WalProofs5.
 Import ListNotations.
 Open Scope N_scope.
 
@@ -45,6 +46,85 @@ Check recover_committed_log : forall (H : bytes -> N) l0 ts extra,
   Forall (fun f => frame_check H f = None) extra ->
   recover_fc H (log_frames ts ++ extra) (map w_commit ts) = Ok (map rtx_of ts, expected_tail ts extra).
 Print Assumptions recover_committed_log.
+
+(* C10 core: for EVERY byte length k, recovering the first k bytes of a valid log succeeds and returns
+   exactly the transactions whose commit marker lies wholly inside k - in order, nothing of an
+   incomplete transaction - and the tail is Clean iff k is a transaction boundary. *)
+Theorem recover_prefix : forall (H : bytes -> N) sid l0 ts k,
+  log_valid H l0 ts ->
+  Forall (fun f => f_seg f = sid) (log_frames ts) ->
+  Forall payload_small (log_recs ts) ->
+  recover_segment H sid (firstn k (log_bytes H ts)) =
+  Ok (map rtx_of (whole_within (tx_size H) k ts),
+      if on_boundary (tx_size H) k ts then TClean
+      else match last_commit_lsn (map w_commit (whole_within (tx_size H) k ts)) with
+           | Some l => TAfter l
+           | None => TAll
+           end).
+Proof. exact recover_segment_prefix. Qed.
+Check recover_prefix : forall (H : bytes -> N) sid l0 ts k,
+  log_valid H l0 ts ->
+  Forall (fun f => f_seg f = sid) (log_frames ts) ->
+  Forall payload_small (log_recs ts) ->
+  recover_segment H sid (firstn k (log_bytes H ts)) =
+  Ok (map rtx_of (whole_within (tx_size H) k ts),
+      if on_boundary (tx_size H) k ts then TClean
+      else match last_commit_lsn (map w_commit (whole_within (tx_size H) k ts)) with
+           | Some l => TAfter l
+           | None => TAll
+           end).
+Print Assumptions recover_prefix.
+
+(* ack_durable, the part that is proved: a transaction is acknowledged only after its commit marker
+   was written and synced, so at any later crash point k >= |bytes of the acknowledged log| every
+   acknowledged transaction is recovered, in order, and whatever else is recovered is a prefix of
+   the transactions that were in flight.
+   NOT proved (exercised by the tie): the in-memory rollback of the host after an injected store
+   fault, the writer-epoch ledger, and the repair rewrite (which is NOT crash-atomic, see below). *)
+Theorem ack_durable_partial : forall (H : bytes -> N) sid l0 acked inflight k,
+  log_valid H l0 (acked ++ inflight) ->
+  Forall (fun f => f_seg f = sid) (log_frames (acked ++ inflight)) ->
+  Forall payload_small (log_recs (acked ++ inflight)) ->
+  (length (log_bytes H acked) <= k)%nat ->
+  exists more tl,
+    recover_segment H sid (firstn k (log_bytes H (acked ++ inflight))) =
+      Ok (map rtx_of (acked ++ more), tl) /\
+    exists rest, inflight = more ++ rest.
+Proof. exact synced_transactions_survive. Qed.
+Check ack_durable_partial : forall (H : bytes -> N) sid l0 acked inflight k,
+  log_valid H l0 (acked ++ inflight) ->
+  Forall (fun f => f_seg f = sid) (log_frames (acked ++ inflight)) ->
+  Forall payload_small (log_recs (acked ++ inflight)) ->
+  (length (log_bytes H acked) <= k)%nat ->
+  exists more tl,
+    recover_segment H sid (firstn k (log_bytes H (acked ++ inflight))) =
+      Ok (map rtx_of (acked ++ more), tl) /\
+    exists rest, inflight = more ++ rest.
+Print Assumptions ack_durable_partial.
+
+(* The repair (rewrite_filesystem_segments_after_truncation) unlinks the segment and re-appends every
+   kept frame followed by every kept commit marker.  Full statement "a process stop at any point of
+   the repair still recovers every acknowledged transaction" is FALSE of the faithful model: *)
+Theorem repair_rewrite_kill_refuted : exists (H : bytes -> N) (disk : bytes) (m : nat),
+  (exists acked tl, acked <> [] /\ recover_store H disk = Ok (acked, tl)) /\
+  (m < length (repair H disk))%nat /\
+  summarize (recover_store H (firstn m (repair H disk))) = summarize (Ok ([], TAll)).
+Proof.
+  exists exH, ex_crashed,
+    (lrec_size (LFrame (hd (mk_frame exH (exP 0) 0 0 0 (1, [])) (w_frames ex_t1)))).
+  split; [|split].
+  - destruct (recover_store exH ex_crashed) as [[acked tl]|e] eqn:E.
+    + exists acked, tl. split; [|reflexivity]. intros ->.
+      pose proof (proj1 repair_kill_witness) as W. rewrite E in W. vm_compute in W. discriminate.
+    + pose proof (proj1 repair_kill_witness) as W. rewrite E in W. vm_compute in W. discriminate.
+  - vm_compute. reflexivity.
+  - exact (proj2 (proj2 repair_kill_witness)).
+Qed.
+Check repair_rewrite_kill_refuted : exists (H : bytes -> N) (disk : bytes) (m : nat),
+  (exists acked tl, acked <> [] /\ recover_store H disk = Ok (acked, tl)) /\
+  (m < length (repair H disk))%nat /\
+  summarize (recover_store H (firstn m (repair H disk))) = summarize (Ok ([], TAll)).
+Print Assumptions repair_rewrite_kill_refuted.
 
 (* Non-vacuity: a concrete three-transaction log is valid, its encoding has every record in range,
    and cutting it in the middle of the third transaction recovers the first two with the tail
